@@ -11,15 +11,15 @@ namespace Ft
 /-! ### points -/
 
 theorem lexLt_snoc (pre : List Int) (a b : Int) :
-    lexLt (pre ++ [a]) (pre ++ [b]) = decide (a < b) := by
+    c19_lexLt (pre ++ [a]) (pre ++ [b]) = decide (a < b) := by
   induction pre with
   | nil =>
-    simp only [List.nil_append, lexLt]
+    simp only [List.nil_append, c19_lexLt]
     by_cases h : a < b
     · simp [h]
     · by_cases h2 : a = b <;> simp [h, h2]
   | cons x xs ih =>
-    simp only [List.cons_append, lexLt, Int.lt_irrefl, if_false, if_true, ih]
+    simp only [List.cons_append, c19_lexLt, Int.lt_irrefl, if_false, if_true, ih]
 
 theorem snoc_inj (pre : List Int) (a b : Int) : (pre ++ [a] = pre ++ [b]) ↔ a = b := by
   constructor
@@ -33,26 +33,26 @@ theorem dropLast_snoc (pre : List Int) (a : Int) : (pre ++ [a]).dropLast = pre :
   simp
 
 /-- the points `pre ++ [c]` of a list of used coordinates -/
-def P (pre : List Int) (cs : List Int) : List Pt := cs.map (fun c => pre ++ [c])
+def P (pre : List Int) (cs : List Int) : List c19_Pt := cs.map (fun c => pre ++ [c])
 
 @[simp] theorem P_nil (pre : List Int) : P pre [] = [] := rfl
 @[simp] theorem P_cons (pre : List Int) (c : Int) (cs : List Int) :
     P pre (c :: cs) = (pre ++ [c]) :: P pre cs := rfl
 
 /-- `R` does not continue the fiber `pre` -/
-def Foreign (pre : List Int) (R : List Pt) : Prop := endOf pre R = true
+def Foreign (pre : List Int) (R : List c19_Pt) : Prop := endOf pre R = true
 
 theorem foreign_nil (pre : List Int) : Foreign pre [] := rfl
 
-theorem endOf_P_cons (pre : List Int) (c : Int) (cs : List Int) (R : List Pt) :
+theorem endOf_P_cons (pre : List Int) (c : Int) (cs : List Int) (R : List c19_Pt) :
     endOf pre (P pre (c :: cs) ++ R) = false := by
   simp [endOf, P]
 
-theorem fiberOf_P_cons (pre : List Int) (c : Int) (cs : List Int) (R : List Pt) :
+theorem fiberOf_P_cons (pre : List Int) (c : Int) (cs : List Int) (R : List c19_Pt) :
     fiberOf (P pre (c :: cs) ++ R) = some pre := by
   simp [fiberOf, P, snoc_isEmpty]
 
-theorem fiberOf_foreign {pre : List Int} {R : List Pt} (h : Foreign pre R) :
+theorem fiberOf_foreign {pre : List Int} {R : List c19_Pt} (h : Foreign pre R) :
     fiberOf R ≠ some pre := by
   cases R with
   | nil => simp [fiberOf]
@@ -126,8 +126,8 @@ end Ft
 
 namespace Ft
 
-theorem tfLoop_nil_left (l : List Pt) : tfLoop [] l = 0 := by rw [tfLoop]; intros; simp_all
-theorem tfLoop_nil_right (l : List Pt) : tfLoop l [] = 0 := by rw [tfLoop]; intros; simp_all
+theorem tfLoop_nil_left (l : List c19_Pt) : tfLoop [] l = 0 := by rw [tfLoop]; intros; simp_all
+theorem tfLoop_nil_right (l : List c19_Pt) : tfLoop l [] = 0 := by rw [tfLoop]; intros; simp_all
 
 theorem mergeLabels_nil_left (b : List Int) : mergeLabels ([] : List Int) b = [] := by
   rw [mergeLabels]; intros; simp_all
@@ -137,7 +137,7 @@ theorem mergeLabels_nil_right (a : List Int) : mergeLabels a ([] : List Int) = [
 /-- one fiber, both operands non-empty: the two-finger loop performs exactly the merge
     steps of the operands and continues behind the fiber — provided the fiber ends
     cleanly or nothing follows -/
-theorem tfLoop_fiber (pre : List Int) (a b : List Int) (R0 R1 : List Pt)
+theorem tfLoop_fiber (pre : List Int) (a b : List Int) (R0 R1 : List c19_Pt)
     (h0 : Foreign pre R0) (h1 : Foreign pre R1) (ha : a ≠ []) (hb : b ≠ [])
     (hc : cleanEnd a b = true ∨ (R0 = [] ∧ R1 = [])) :
     tfLoop (P pre (andPts a b).1 ++ R0) (P pre (andPts a b).2 ++ R1)
@@ -147,7 +147,7 @@ theorem tfLoop_fiber (pre : List Int) (a b : List Int) (R0 R1 : List Pt)
   | case2 a ra => exact absurd rfl hb
   | case3 b rb => exact absurd rfl ha
   | case4 ta x tb ih =>
-    have hstep : ∀ r0 r1 : List Pt, tfLoop ((pre ++ [x]) :: r0) ((pre ++ [x]) :: r1) = 1 + tfLoop r0 r1 := by
+    have hstep : ∀ r0 r1 : List c19_Pt, tfLoop ((pre ++ [x]) :: r0) ((pre ++ [x]) :: r1) = 1 + tfLoop r0 r1 := by
       intro r0 r1; rw [tfLoop]; simp [snoc_isEmpty]
     have hml : mergeLabels (x :: ta) (x :: tb) = Lab.M :: mergeLabels ta tb := by
       rw [mergeLabels]; simp
@@ -236,12 +236,12 @@ def runsFrom : Option Nat → List Lab → Nat
   | c, Lab.L :: r => (if c ≠ some 0 then 1 else 0) + runsFrom (some 0) r
   | c, Lab.R :: r => (if c ≠ some 1 then 1 else 0) + runsFrom (some 1) r
 
-theorem saLoop_nil_left (c : Option Nat) (l : List Pt) : saLoop c [] l = 0 := by
+theorem saLoop_nil_left (c : Option Nat) (l : List c19_Pt) : saLoop c [] l = 0 := by
   rw [saLoop]; intros; simp_all
-theorem saLoop_nil_right (c : Option Nat) (l : List Pt) : saLoop c l [] = 0 := by
+theorem saLoop_nil_right (c : Option Nat) (l : List c19_Pt) : saLoop c l [] = 0 := by
   rw [saLoop]; intros; simp_all
 
-theorem saLoop_fiber (pre : List Int) (a b : List Int) (R0 R1 : List Pt) (curr : Option Nat)
+theorem saLoop_fiber (pre : List Int) (a b : List Int) (R0 R1 : List c19_Pt) (curr : Option Nat)
     (h0 : Foreign pre R0) (h1 : Foreign pre R1) (ha : a ≠ []) (hb : b ≠ [])
     (hc : cleanEnd a b = true ∨ (R0 = [] ∧ R1 = [])) :
     saLoop curr (P pre (andPts a b).1 ++ R0) (P pre (andPts a b).2 ++ R1)
@@ -251,7 +251,7 @@ theorem saLoop_fiber (pre : List Int) (a b : List Int) (R0 R1 : List Pt) (curr :
   | case2 a ra => exact absurd rfl hb
   | case3 b rb => exact absurd rfl ha
   | case4 ta x tb ih =>
-    have hstep : ∀ r0 r1 : List Pt, saLoop curr ((pre ++ [x]) :: r0) ((pre ++ [x]) :: r1) = 1 + saLoop none r0 r1 := by
+    have hstep : ∀ r0 r1 : List c19_Pt, saLoop curr ((pre ++ [x]) :: r0) ((pre ++ [x]) :: r1) = 1 + saLoop none r0 r1 := by
       intro r0 r1; rw [saLoop]; simp [snoc_isEmpty]
     have hml : mergeLabels (x :: ta) (x :: tb) = Lab.M :: mergeLabels ta tb := by
       rw [mergeLabels]; simp
@@ -375,17 +375,17 @@ namespace Ft
 
 /-! ### groups of consecutive fibers -/
 
-def FiberIn.pts (f : FiberIn) : List Pt × List Pt :=
+def FiberIn.pts (f : FiberIn) : List c19_Pt × List c19_Pt :=
   (P f.pre (andPts f.a f.b).1, P f.pre (andPts f.a f.b).2)
 
-def groupPts (g : List FiberIn) : List Pt × List Pt :=
+def groupPts (g : List FiberIn) : List c19_Pt × List c19_Pt :=
   (g.flatMap (fun f => f.pts.1), g.flatMap (fun f => f.pts.2))
 
 theorem groupPts_cons (f : FiberIn) (g : List FiberIn) :
     groupPts (f :: g) = (f.pts.1 ++ (groupPts g).1, f.pts.2 ++ (groupPts g).2) := by
   simp [groupPts]
 
-theorem foreign_P_append (pre pre' : List Int) (cs : List Int) (R : List Pt)
+theorem foreign_P_append (pre pre' : List Int) (cs : List Int) (R : List c19_Pt)
     (hne : pre ≠ pre') (hR : Foreign pre R) : Foreign pre (P pre' cs ++ R) := by
   cases cs with
   | nil => simpa using hR
